@@ -44,12 +44,40 @@ def cases(tier, seed):
     # earlier run was stopped at time k with reservations still live): the
     # new cluster must start with no reservation
     plain = [(sc, c) for sc, c in out if c["alg"]["kind"] == "batch"
-             and sc == "S-batch"]
+             and sc.startswith("S-batch")]
     for sc, c in common.thin(plain, 6 if tier != "thorough" else 2):
         for k in ((3, 5, 8) if tier != "thorough" else (2, 3, 4, 5, 6, 8, 11)):
             first = dict(c, runtime=k)
             out.append((sc + "/after-abandoned-run",
                         dict(c, before=[first])))
+    # ONE BatchProcessing object drives a run on a bigger cluster and then
+    # this run (a parameter sweep that builds the policy once)
+    for sc, c in common.thin(plain, 4 if tier != "thorough" else 1):
+        alg = dict(c["alg"], reuse="p")
+        for extra in (1, 3, 5):
+            cfg = c["cfg"]
+            bigger = dict(cfg, machines=list(cfg["machines"])
+                          + [[1, 1]] * extra)
+            first = dict(c, cfg=bigger, alg=alg)
+            out.append((sc + "/policy-object-reused-after-bigger-cluster",
+                        dict(c, alg=alg, before=[first])))
+    # ... with an observation whose own ingest holds all but one machine
+    # when its workflow is handed over (fewer free machines than the minimum)
+    from ..scopes import mkobs, mkcfg, mkcase, dag, CLUSTERS
+    for M in (3, 4):
+        for wf in (dag("fork", [1, 2, 1], [0, 0]), dag("chain2", [2, 2], [1])):
+            for dur in (1, 2, 3):
+                obs = [mkobs("a", 0, dur, 1, 1, M - 1, "wa")]
+                cfg = mkcfg(CLUSTERS[M][0], obs, (100, 10), (100, 10), 2,
+                            M - 1)
+                for extra in (2, 5):
+                    alg = {"kind": "batch", "p": 1, "min": 2, "reuse": "p"}
+                    bigger = dict(cfg, machines=list(cfg["machines"])
+                                  + [[1, 1]] * extra)
+                    c = mkcase(cfg, {"wa": wf}, alg)
+                    out.append(("S-sweep/policy-object-reused-after-bigger-"
+                                "cluster", dict(c, before=[dict(
+                                    c, cfg=bigger)])))
     if tier == "thorough":
         out = [(sc, dict(c, budget_override=dict(
             common.thorough_override(c, i), **c.get("budget_override", {}))))
